@@ -143,7 +143,10 @@ class Sched:
       sleepers = [t for t in self.threads if t.status == 'blocked' and t.wake is not None and t.wake > self.clock]
       if sleepers:
         nw = min(t.wake for t in sleepers)
-        idle = not cands and not me_enabled
+        # a blocked caller whose own wake-up has just been reached counts as
+        # runnable: the clock must not be advanced past it
+        me_ready = (not me_enabled) and me.status == 'blocked' and self.enabled(me)
+        idle = not cands and not me_enabled and not me_ready
         if (nw <= self.horizon or self.main.wake is not None) and (idle or (self.p_time and self.rng.random() < self.p_time)):
           self.clock = nw
           continue
